@@ -98,6 +98,18 @@ let uinto toks =
                 "rc=0 into=1" ^ String.sub s 4 (String.length s - 4)))
   | _ -> failwith "uinto args"
 
+(* ugetproxy <bytes> : coap_get_uri_path with a Proxy-Uri option = path of coap_split_proxy_uri *)
+let ugetproxy toks =
+  match toks with
+  | [b] ->
+      let caps = { ucap_dtls = true; ucap_tcp = true; ucap_tls = true; ucap_ws = true;
+                   ucap_wss = true } in
+      (match uri_split caps true (bytes_of_tok b) with
+       | UOob -> "OOB"
+       | UOk (UErr _) -> "null"
+       | UOk (USplit p) -> "path=" ^ full_hex p.up_path)
+  | _ -> failwith "ugetproxy args"
+
 (* ---- specification side (oracle): what RFC 3986 / RFC 7252 6.4 say the options are ---- *)
 let show_optl l = match l with [] -> "-" | _ -> String.concat "," (List.map full_hex l)
 let show_spec r = match r with None -> "MALFORMED" | Some l -> show_optl l
@@ -126,5 +138,5 @@ let spec_norm toks = show_optl (uri_norm (List.map bytes_of_tok toks))
 
 let () =
   register "upath" upath; register "uquery" uquery; register "upol" upol; register "uqol" uqol;
-  register "ugetp" (uget false); register "ugetq" (uget true); register "uspl" uspl; register "uinto" uinto;
+  register "ugetp" (uget false); register "ugetq" (uget true); register "uspl" uspl; register "uinto" uinto; register "ugetproxy" ugetproxy;
   register "spec_path" spec_path; register "spec_query" spec_query; register "spec_norm" spec_norm
